@@ -207,156 +207,7 @@ func runC13(c *core.Ctx) {
 		c.Floor("R13.6", "success returns of ReadMessage", n, 1)
 	}
 
-	// ---- R13.2
-	stateConst := func(name string) int64 {
-		if k, ok := c.P.Pkg("wire").Types.Scope().Lookup(name).(*types.Const); ok {
-			v, _ := constInt64(k)
-			return v
-		}
-		return -1
-	}
-	idle, waiting, has := stateConst("saveStateIdle"), stateConst("saveStateWaitingForSource"), stateConst("saveStateHasSourceCheckpoint")
-	if idle < 0 || waiting < 0 || has < 0 {
-		c.Missing("R13.2", "wire.saveState*", "state constants not found")
-	} else {
-		stateGuard := func(in ssa.Instruction, want int64) bool {
-			return hasGuard(in, func(g core.Guard) bool {
-				return relHolds(g, token.EQL, isField("saveState"), isConstInt(want))
-			})
-		}
-		stateStore := func(want int64) ipred {
-			return func(in ssa.Instruction) bool {
-				st, ok := in.(*ssa.Store)
-				if !ok {
-					return false
-				}
-				_, n, ok := core.FieldOf(st.Addr)
-				k, isC := core.ConstInt(st.Val)
-				return ok && n == "saveState" && isC && k == want
-			}
-		}
-		ask := firstInstr(want, func(in ssa.Instruction) bool {
-			cl, ok := in.(*ssa.Call)
-			return ok && cl.Call.IsInvoke() && cl.Call.Method.Name() == "WantSave" && isSourceVal(cl.Call.Value)
-		})
-		setW := firstInstr(want, stateStore(waiting))
-		c.Check(ask != nil && stateGuard(ask, idle), "R13.2", core.FnName(want), "source.WantSave() asked from the idle state", want.Pos(),
-			"the source is asked under saveState == idle", "WantSave does not forward the request to the source from the idle state: no checkpoint is ever produced")
-		c.Check(setW != nil && stateGuard(setW, idle) && ask != nil && (core.InstrDominates(ask, setW) || core.InstrDominates(setW, ask)), "R13.2", core.FnName(want), "state moves idle -> waiting together with the request", want.Pos(),
-			"saveState = waiting on the same path as the request", "the state is not moved to 'waiting' on the path that asks the source")
-		// the callback
-		var cb *ssa.Function
-		// (a literal in NewReadContext, or a method used as the callback: whichever function of the package
-		// records the delivery)
-		for _, f := range c.P.SrcFuncs() {
-			if strings.HasSuffix(core.PkgPathOf(f), "/wire") && firstInstr(f, stateStore(has)) != nil {
-				cb = f
-			}
-		}
-		if cb == nil {
-			c.Bad("R13.2", core.FnName(newRC), "source save callback", newRC.Pos(), "no callback stores saveState = has-source-checkpoint")
-		} else {
-			stCk := firstInstr(cb, func(in ssa.Instruction) bool {
-				st, ok := in.(*ssa.Store)
-				if !ok {
-					return false
-				}
-				_, n, ok := core.FieldOf(st.Addr)
-				if !ok || n != "sourceCheckpoint" {
-					return false
-				}
-				for _, p := range cb.Params { // a literal's only parameter, or a method's after the receiver
-					if st.Val == ssa.Value(p) && core.TypeName(p.Type()) == "github.com/itchio/savior.SourceCheckpoint" {
-						return true
-					}
-				}
-				return false
-			})
-			c.Check(stCk != nil && core.FindPath(cb, nil, isReturn, stateStore(has)) == nil, "R13.2", core.FnName(cb), "callback stores the source checkpoint and moves to has-checkpoint", cb.Pos(),
-				"both on every path", "the source's save callback does not record the checkpoint and the state on every path")
-			// installed as OnSave
-			inst := false
-			core.Instrs(newRC, func(in ssa.Instruction) {
-				if st, ok := in.(*ssa.Store); ok {
-					if _, n, ok := core.FieldOf(st.Addr); ok && n == "OnSave" {
-						for _, o := range core.Origins(st.Val) {
-							if mc, ok := o.(*ssa.MakeClosure); ok {
-								if mc.Fn == cb {
-									inst = true
-								} else if w, ok := mc.Fn.(*ssa.Function); ok && w.Synthetic != "" {
-									// a method value: the bound-method wrapper calls the method
-									core.Instrs(w, func(x ssa.Instruction) {
-										if cl, ok := x.(ssa.CallInstruction); ok && cl.Common().StaticCallee() == cb {
-											inst = true
-										}
-									})
-								}
-							}
-						}
-					}
-				}
-			})
-			c.Check(inst && containsCall(newRC, callLikeInvoke("SetSourceSaveConsumer")), "R13.2", core.FnName(newRC), "callback installed on the source", newRC.Pos(),
-				"SetSourceSaveConsumer(OnSave: callback)", "the save callback is not installed on the source")
-		}
-		// PopCheckpoint
-		nNon := 0
-		for _, rs := range core.Returns(pop, 0) {
-			if core.IsNilConst(rs.Val) {
-				continue
-			}
-			nNon++
-			// equivalently: the stored source checkpoint is non-nil (the callback sets both, Pop and Resume clear both)
-			haveCk := hasGuard(rs.Ret, func(g core.Guard) bool {
-				bo, ok := g.Cond.(*ssa.BinOp)
-				if !ok || !core.IsNilConst(bo.Y) {
-					return false
-				}
-				_, n, ok := core.FieldOf(bo.X)
-				return ok && n == "sourceCheckpoint" && ((bo.Op == token.NEQ && g.Val) || (bo.Op == token.EQL && !g.Val))
-			})
-			c.Check(stateGuard(rs.Ret, has) || haveCk, "R13.2", core.FnName(pop), "checkpoint returned only when the source has delivered one", core.InstrPos(rs.Ret),
-				"guarded by saveState == has-source-checkpoint (or r.sourceCheckpoint != nil)", "PopCheckpoint can return a checkpoint although the source has not delivered one")
-			for _, o := range core.Origins(rs.Val) {
-				a, ok := o.(*ssa.Alloc)
-				if !ok {
-					c.Bad("R13.2", core.FnName(pop), "returned checkpoint is a literal", core.InstrPos(rs.Ret), "the returned checkpoint is not built here")
-					continue
-				}
-				off, ok1 := litField(a, "Offset")
-				sck, ok2 := litField(a, "SourceCheckpoint")
-				_, n1, f1 := core.FieldOf(off)
-				_, n2, f2 := core.FieldOf(sck)
-				c.Check(ok1 && f1 && n1 == "offset", "R13.2", core.FnName(pop), "checkpoint Offset is r.offset", core.InstrPos(a),
-					"Offset: r.offset", "the checkpoint's Offset is not the counted reader offset")
-				c.Check(ok2 && f2 && n2 == "sourceCheckpoint", "R13.2", core.FnName(pop), "checkpoint SourceCheckpoint is r.sourceCheckpoint", core.InstrPos(a),
-					"SourceCheckpoint: r.sourceCheckpoint", "the checkpoint does not carry the source's checkpoint")
-			}
-		}
-		c.Floor("R13.2", "non-nil returns of PopCheckpoint", nNon, 1)
-		// not reachable from ReadMessage / counting reader
-		g := c.P.CallGraph(false)
-		reach := map[*ssa.Function]bool{}
-		var walk func(f *ssa.Function)
-		walk = func(f *ssa.Function) {
-			if reach[f] || !core.InModule(f) {
-				return
-			}
-			reach[f] = true
-			if n := g.Nodes[f]; n != nil {
-				for _, e := range n.Out {
-					walk(e.Callee.Func)
-				}
-			}
-		}
-		for _, f := range []*ssa.Function{readMsg, crRead, crReadByte, expMagic} {
-			walk(f)
-		}
-		c.Check(!reach[pop], "R13.2", core.FnName(pop), "not reachable from ReadMessage / the counting reader", pop.Pos(),
-			"checkpoints are popped between messages only", "PopCheckpoint is reachable from inside ReadMessage: a checkpoint offset can fall in the middle of a message")
-	}
-
-	ruleCodecPairing(c, "R13.3")
+	ruleSaveProtocol(c)
 
 	// ---- R13.4 magic pairing
 	written, expected := map[int64][]string{}, map[int64][]string{}
@@ -561,5 +412,179 @@ func ruleCodecPairing(c *core.Ctx, rule string) {
 		}
 		c.Check(okNil, rule, core.FnName(fn), "unregistered algorithm is an error", fn.Pos(), "the registry lookup is nil-checked", "an unregistered algorithm is not rejected in "+nm)
 	}
+
+}
+
+// ruleSaveProtocol is R13.2, the reader side of the save protocol (shared with C03: the message
+// checkpoint is one of the state layers a patcher checkpoint is made of).
+func ruleSaveProtocol(c *core.Ctx) {
+	crRead := c.P.Fn("wire", "countingReader.Read")
+	crReadByte := c.P.Fn("wire", "countingReader.ReadByte")
+	readMsg := c.P.Fn("wire", "ReadContext.ReadMessage")
+	expMagic := c.P.Fn("wire", "ReadContext.ExpectMagic")
+	want := c.P.Fn("wire", "ReadContext.WantSave")
+	pop := c.P.Fn("wire", "ReadContext.PopCheckpoint")
+	newRC := c.P.Fn("wire", "NewReadContext")
+	for n, f := range map[string]*ssa.Function{"countingReader.Read": crRead, "countingReader.ReadByte": crReadByte, "ReadContext.ReadMessage": readMsg,
+		"ReadContext.ExpectMagic": expMagic, "ReadContext.WantSave": want, "ReadContext.PopCheckpoint": pop, "NewReadContext": newRC} {
+		if f == nil {
+			c.Missing("R13.2", "wire."+n, "not found")
+			return
+		}
+	}
+	isSourceVal := func(v ssa.Value) bool {
+		_, n, ok := core.FieldOf(v)
+		return ok && n == "source"
+	}
+	// ---- R13.2
+	stateConst := func(name string) int64 {
+		if k, ok := c.P.Pkg("wire").Types.Scope().Lookup(name).(*types.Const); ok {
+			v, _ := constInt64(k)
+			return v
+		}
+		return -1
+	}
+	idle, waiting, has := stateConst("saveStateIdle"), stateConst("saveStateWaitingForSource"), stateConst("saveStateHasSourceCheckpoint")
+	if idle < 0 || waiting < 0 || has < 0 {
+		c.Missing("R13.2", "wire.saveState*", "state constants not found")
+	} else {
+		stateGuard := func(in ssa.Instruction, want int64) bool {
+			return hasGuard(in, func(g core.Guard) bool {
+				return relHolds(g, token.EQL, isField("saveState"), isConstInt(want))
+			})
+		}
+		stateStore := func(want int64) ipred {
+			return func(in ssa.Instruction) bool {
+				st, ok := in.(*ssa.Store)
+				if !ok {
+					return false
+				}
+				_, n, ok := core.FieldOf(st.Addr)
+				k, isC := core.ConstInt(st.Val)
+				return ok && n == "saveState" && isC && k == want
+			}
+		}
+		ask := firstInstr(want, func(in ssa.Instruction) bool {
+			cl, ok := in.(*ssa.Call)
+			return ok && cl.Call.IsInvoke() && cl.Call.Method.Name() == "WantSave" && isSourceVal(cl.Call.Value)
+		})
+		setW := firstInstr(want, stateStore(waiting))
+		c.Check(ask != nil && stateGuard(ask, idle), "R13.2", core.FnName(want), "source.WantSave() asked from the idle state", want.Pos(),
+			"the source is asked under saveState == idle", "WantSave does not forward the request to the source from the idle state: no checkpoint is ever produced")
+		c.Check(setW != nil && stateGuard(setW, idle) && ask != nil && (core.InstrDominates(ask, setW) || core.InstrDominates(setW, ask)), "R13.2", core.FnName(want), "state moves idle -> waiting together with the request", want.Pos(),
+			"saveState = waiting on the same path as the request", "the state is not moved to 'waiting' on the path that asks the source")
+		// the callback
+		var cb *ssa.Function
+		// (a literal in NewReadContext, or a method used as the callback: whichever function of the package
+		// records the delivery)
+		for _, f := range c.P.SrcFuncs() {
+			if strings.HasSuffix(core.PkgPathOf(f), "/wire") && firstInstr(f, stateStore(has)) != nil {
+				cb = f
+			}
+		}
+		if cb == nil {
+			c.Bad("R13.2", core.FnName(newRC), "source save callback", newRC.Pos(), "no callback stores saveState = has-source-checkpoint")
+		} else {
+			stCk := firstInstr(cb, func(in ssa.Instruction) bool {
+				st, ok := in.(*ssa.Store)
+				if !ok {
+					return false
+				}
+				_, n, ok := core.FieldOf(st.Addr)
+				if !ok || n != "sourceCheckpoint" {
+					return false
+				}
+				for _, p := range cb.Params { // a literal's only parameter, or a method's after the receiver
+					if st.Val == ssa.Value(p) && core.TypeName(p.Type()) == "github.com/itchio/savior.SourceCheckpoint" {
+						return true
+					}
+				}
+				return false
+			})
+			c.Check(stCk != nil && core.FindPath(cb, nil, isReturn, stateStore(has)) == nil, "R13.2", core.FnName(cb), "callback stores the source checkpoint and moves to has-checkpoint", cb.Pos(),
+				"both on every path", "the source's save callback does not record the checkpoint and the state on every path")
+			// installed as OnSave
+			inst := false
+			core.Instrs(newRC, func(in ssa.Instruction) {
+				if st, ok := in.(*ssa.Store); ok {
+					if _, n, ok := core.FieldOf(st.Addr); ok && n == "OnSave" {
+						for _, o := range core.Origins(st.Val) {
+							if mc, ok := o.(*ssa.MakeClosure); ok {
+								if mc.Fn == cb {
+									inst = true
+								} else if w, ok := mc.Fn.(*ssa.Function); ok && w.Synthetic != "" {
+									// a method value: the bound-method wrapper calls the method
+									core.Instrs(w, func(x ssa.Instruction) {
+										if cl, ok := x.(ssa.CallInstruction); ok && cl.Common().StaticCallee() == cb {
+											inst = true
+										}
+									})
+								}
+							}
+						}
+					}
+				}
+			})
+			c.Check(inst && containsCall(newRC, callLikeInvoke("SetSourceSaveConsumer")), "R13.2", core.FnName(newRC), "callback installed on the source", newRC.Pos(),
+				"SetSourceSaveConsumer(OnSave: callback)", "the save callback is not installed on the source")
+		}
+		// PopCheckpoint
+		nNon := 0
+		for _, rs := range core.Returns(pop, 0) {
+			if core.IsNilConst(rs.Val) {
+				continue
+			}
+			nNon++
+			// equivalently: the stored source checkpoint is non-nil (the callback sets both, Pop and Resume clear both)
+			haveCk := hasGuard(rs.Ret, func(g core.Guard) bool {
+				bo, ok := g.Cond.(*ssa.BinOp)
+				if !ok || !core.IsNilConst(bo.Y) {
+					return false
+				}
+				_, n, ok := core.FieldOf(bo.X)
+				return ok && n == "sourceCheckpoint" && ((bo.Op == token.NEQ && g.Val) || (bo.Op == token.EQL && !g.Val))
+			})
+			c.Check(stateGuard(rs.Ret, has) || haveCk, "R13.2", core.FnName(pop), "checkpoint returned only when the source has delivered one", core.InstrPos(rs.Ret),
+				"guarded by saveState == has-source-checkpoint (or r.sourceCheckpoint != nil)", "PopCheckpoint can return a checkpoint although the source has not delivered one")
+			for _, o := range core.Origins(rs.Val) {
+				a, ok := o.(*ssa.Alloc)
+				if !ok {
+					c.Bad("R13.2", core.FnName(pop), "returned checkpoint is a literal", core.InstrPos(rs.Ret), "the returned checkpoint is not built here")
+					continue
+				}
+				off, ok1 := litField(a, "Offset")
+				sck, ok2 := litField(a, "SourceCheckpoint")
+				_, n1, f1 := core.FieldOf(off)
+				_, n2, f2 := core.FieldOf(sck)
+				c.Check(ok1 && f1 && n1 == "offset", "R13.2", core.FnName(pop), "checkpoint Offset is r.offset", core.InstrPos(a),
+					"Offset: r.offset", "the checkpoint's Offset is not the counted reader offset")
+				c.Check(ok2 && f2 && n2 == "sourceCheckpoint", "R13.2", core.FnName(pop), "checkpoint SourceCheckpoint is r.sourceCheckpoint", core.InstrPos(a),
+					"SourceCheckpoint: r.sourceCheckpoint", "the checkpoint does not carry the source's checkpoint")
+			}
+		}
+		c.Floor("R13.2", "non-nil returns of PopCheckpoint", nNon, 1)
+		// not reachable from ReadMessage / counting reader
+		g := c.P.CallGraph(false)
+		reach := map[*ssa.Function]bool{}
+		var walk func(f *ssa.Function)
+		walk = func(f *ssa.Function) {
+			if reach[f] || !core.InModule(f) {
+				return
+			}
+			reach[f] = true
+			if n := g.Nodes[f]; n != nil {
+				for _, e := range n.Out {
+					walk(e.Callee.Func)
+				}
+			}
+		}
+		for _, f := range []*ssa.Function{readMsg, crRead, crReadByte, expMagic} {
+			walk(f)
+		}
+		c.Check(!reach[pop], "R13.2", core.FnName(pop), "not reachable from ReadMessage / the counting reader", pop.Pos(),
+			"checkpoints are popped between messages only", "PopCheckpoint is reachable from inside ReadMessage: a checkpoint offset can fall in the middle of a message")
+	}
+
+	ruleCodecPairing(c, "R13.3")
 
 }
